@@ -8,7 +8,7 @@ From CV Require Import Lib.Sx Model.M_flow Model.M_hooks Model.M_pipeline.
 Open Scope Z_scope.
 
 Definition all_actions : list action :=
-  [RunHooks OnStartResource; RunHooks BeforeRequestBody; RunHooks BeforeHandler; RunHooks BeforeFinalize; RunHooks OnEndResource; RunHooks OnEndRequest; RunHooks BeforeErrorResponse; RunHooks AfterErrorResponse; FindDispatch; Dispatch; SetDefaultErrorResponse; CopyHooks; ProcessHeaders; GetResource; MakeBody; Namespaces; ProcessQueryString; BodyProcess; Handler; Finalize; SetResponseOfExc; ErrorResponse; FormatExcBody; ClearBody; BareError; InstallBareError; DropBody; LogAccess; NewRequest; NewResponse; LoadServing; PublishEngine; ClearServing; SetClosed; IterBody; StartResponse; StartResponseExc; IterClose; NextChunk; FormatExcTb; ClearTb; BareErrorTrap; EmptyIter; ErrorIter; BindIr; RecordUri; ServerNext; ServerCloseAgain; Other].
+  [RunHooks OnStartResource; RunHooks BeforeRequestBody; RunHooks BeforeHandler; RunHooks BeforeFinalize; RunHooks OnEndResource; RunHooks OnEndRequest; RunHooks BeforeErrorResponse; RunHooks AfterErrorResponse; FindDispatch; Dispatch; SetDefaultErrorResponse; CopyHooks; ProcessHeaders; GetResource; MakeBody; Namespaces; ProcessQueryString; BodyProcess; Handler; Finalize; SetResponseOfExc; ErrorResponse; FormatExcBody; ClearBody; BareError; InstallBareError; DropBody; LogAccess; NewRequest; NewResponse; LoadServing; PublishEngine; ClearServing; SetClosed; IterBody; StartResponse; StartResponseExc; IterClose; NextChunk; FormatExcTb; ClearTb; BareErrorTrap; EmptyIter; ErrorIter; BindIr; RecordUri; ReadIterResponse; ServerNext; ServerCloseAgain; Other].
 Definition all_flags : list flag :=
   [FClosed; FThrowErrors; FShowTracebacksReq; FShowTracebacksServing; FStartedResponse; FMethodHead; FProcessBody; FHandlerSet; FErrorResponseSet; FAppNone; FRecursive; FVisitedBefore; FStreaming; FStatusIsBytes; FHeaderKeyIsBytes; FHeaderValIsBytes; FResponseHasClose; FLoopMore; FHTTPError5xx; FOther].
 Definition all_points : list hookpoint := [OnStartResource; BeforeRequestBody; BeforeHandler; BeforeFinalize; OnEndResource; OnEndRequest; BeforeErrorResponse; AfterErrorResponse].
@@ -42,7 +42,9 @@ Definition exn_code (e : exn) : Z :=
 Definition outcome_code (o : outcome) : Z :=
   match o with Normal => 0 | Returned => -1 | Raised e => exn_code e | OutOfFuel => -2 end.
 
-(** scenario = (showtb  act_rules  true_flags  hooks)
+(** scenario = (showtb  act_rules  true_flags  hooks  visited_from  streaming_closes)
+      streaming_closes: the AppResponse.close() calls (1-based) that found response.stream set
+      visited_from: `new_uri in redirections` holds from the visited_from-th internal redirect on
       act_rules : ((action_code occurrence exn_code) ...)       an action without a rule succeeds
       true_flags: (flag_code ...)                               environment conditions that hold (constant in time)
       hooks     : ((point_code ((id prio failsafe beh_code) ...)) ...)   beh_code 0 = returns
@@ -65,6 +67,8 @@ Definition scenario_env (x : sx) : env :=
   let rules := map (fun r => (sx_Z (nth_sx 0 r), sx_Z (nth_sx 1 r), sx_Z (nth_sx 2 r))) (sx_list (nth_sx 1 x)) in
   let trues := sx_Zs (nth_sx 2 x) in
   let hs := map (fun e => (sx_Z (nth_sx 0 e), map dec_hook (sx_list (nth_sx 1 e)))) (sx_list (nth_sx 3 x)) in
+  let vfrom := sx_Z (nth_sx 4 x) in
+  let sclose := sx_Zs (nth_sx 5 x) in
   Env (fun n a =>
          match rule_for rules a n with
          | Some e => Some e
@@ -73,7 +77,13 @@ Definition scenario_env (x : sx) : env :=
                    | _ => None
                    end
          end)
-      (fun _ f => existsb (Z.eqb (flag_code f)) trues)
+      (fun n f => match f with
+                  | FVisitedBefore => vfrom <=? Z.of_nat n     (* n = number of entries in `redirections` *)
+                  | FStreaming => existsb (Z.eqb (Z.of_nat n)) sclose   (* n-th close(): 1-based *)
+                  | FProcessBody | FMethodHead =>              (* the original request only: a redirected one is a GET *)
+                    existsb (Z.eqb (flag_code f)) trues && (Z.of_nat n =? 0)
+                  | _ => existsb (Z.eqb (flag_code f)) trues
+                  end)
       showtb false.
 
 Definition enc_journal (hs : list (Z * list hook)) (j : list (Z * action)) : sx :=
